@@ -8,6 +8,7 @@ import (
 	"io"
 	"os"
 	"path/filepath"
+	"sort"
 	"strconv"
 	"strings"
 	"sync/atomic"
@@ -22,6 +23,7 @@ import (
 	"github.com/ory/keto/internal/check/checkgroup"
 	"github.com/ory/keto/internal/driver"
 	"github.com/ory/keto/internal/driver/config"
+	"github.com/ory/keto/internal/expand"
 	"github.com/ory/keto/internal/namespace"
 	"github.com/ory/keto/internal/persistence"
 	ksql "github.com/ory/keto/internal/persistence/sql"
@@ -446,6 +448,45 @@ func (e *engEnv) setLimits(c *EngCase) error {
 		e.lastWidth = c.Width
 	}
 	return nil
+}
+
+// expandInA expands the queried object#relation in network A (the environment's own network)
+// and renders the tree canonically (children sorted).
+func (e *engEnv) expandInA(c *EngCase) string {
+	deps := &faultDeps{RegistryDefault: e.reg}
+	var zero int64
+	deps.calls = &zero
+	if e.other != nil {
+		deps.baseMgr, deps.baseTrav = e.other, ksql.NewTraverser(e.other)
+	}
+	root := &relationtuple.SubjectSet{Namespace: c.Query.NS, Object: objUUID(c.Query.Obj), Relation: c.Query.Rel}
+	var render func(t *relationtuple.Tree) string
+	render = func(t *relationtuple.Tree) string {
+		if t == nil {
+			return "nil"
+		}
+		var kids []string
+		for _, ch := range t.Children {
+			kids = append(kids, render(ch))
+		}
+		sort.Strings(kids)
+		return fmt.Sprintf("%s:%s(%s)", t.Type, t.Subject.String(), strings.Join(kids, ","))
+	}
+	out := ""
+	func() {
+		defer func() {
+			if r := recover(); r != nil {
+				out = fmt.Sprintf("panic:%v", r)
+			}
+		}()
+		tr, err := expand.NewEngine(deps).BuildTree(e.ctx, root, 4)
+		if err != nil {
+			out = "error:" + errKind(err)
+			return
+		}
+		out = render(tr)
+	}()
+	return out
 }
 
 // poisonedRuns: the check with one stored row at a time made undecodable (see the caller).
